@@ -198,6 +198,35 @@ def check(run):
         if ok != ok2:
             run.fail('%s through a conditional over %s and %s is %s with %s first and %s with %s first (%s)' % (form, x, y, 'accepted' if ok else 'rejected', x, 'accepted' if ok2 else 'rejected', y, (errs or errs2)[0] if (errs or errs2) else ''),
                      dict(form=form, operands=[x, y], model=model, model_swapped=model2), shape='asym-lvalue:%s' % form)
+    # ... and where the written object decides whether a caller is side-effect free: one branch a local or a value parameter of the function, the other a global;
+    # the function is called from a guard and from an invariant
+    fmodels = []
+    for x, y in (('l', 'li'), ('p', 'li'), ('l', 'la[0]'), ('p', 'ls.a'), ('l', 'p')):
+        for form in ('assign', 'compound', 'ref-arg', 'increment'):
+            for place in ('guard', 'invariant'):
+                for order in (0, 1):
+                    tgt = '(p > 0 ? %s : %s)' % (x, y) if order == 0 else '(!(p > 0) ? %s : %s)' % (y, x)
+                    body = {'assign': '%s = 7;' % tgt, 'compound': '%s += 1;' % tgt, 'increment': '%s++;' % tgt, 'ref-arg': 'wr(%s);' % tgt}[form]
+                    call = 'hf(1) == 1'
+                    fmodels.append((x, y, form + ':' + place, order, ldecl + 'int hf(int p) { int l = 0; %s return p; }\nprocess P() { clock z; state A { %s }, B; init A; trans A -> B { guard %s; }; }\nsystem P;\n'
+                                    % (body, call if place == 'invariant' else 'true', call if place == 'guard' else 'true')))
+    j = vlib.Job()
+    for k, m in enumerate(fmodels):
+        j.case('f%d' % k, fork=True).model('xta', m[4]).dump('errors').end()
+    rr = vlib.run_jobs(j)
+    facc = {}
+    for k, (x, y, form, order, model) in enumerate(fmodels):
+        c = rr['f%d' % k]
+        errs = [l.split('msg="')[1].split('"')[0] for l in c['cmds'][1][2] if l.startswith('error')] if len(c['cmds']) > 1 else ['?']
+        facc[(x, y, form, order)] = (not errs, errs[:1], model)
+    for (x, y, form, order), (ok, errs, model) in facc.items():
+        if order == 1:
+            continue
+        nlv += 1
+        ok2, errs2, model2 = facc[(x, y, form, 1)]
+        if ok != ok2:
+            run.fail('a function that writes through a conditional over %s and %s (%s) is %s with %s first and %s with %s first (%s)' % (x, y, form, 'accepted' if ok else 'rejected', x, 'accepted' if ok2 else 'rejected', y, (errs or errs2)[0] if (errs or errs2) else ''),
+                     dict(form=form, operands=[x, y], model=model, model_swapped=model2), shape='asym-lvalue-effect:%s' % form)
     run.cov['lvalue_conditional_pairs_checked'] = nlv
     # ---- the same swaps where the checker applies further rules to the expression: guard, invariant, update, query, observation list ----
     # (every pair of operand classes for which the operator types in at least one order)
